@@ -201,7 +201,9 @@ def evaluate(run, cases, exe, drv):
             fw.judge_partial(run, o[8], tag(dec) == 'ok' and tag(deser) == 'ok', st, case)
         # correspondence
         m = parse(model.get(cid, '(missing)'))
-        if tag(m) != tag(dec) or (tag(m) == 'ok' and (canon(m[1], True) != canon(dec[1], True) or m[2] != dec[2])):
+        if tag(m) == 'out-of-fuel' and tag(dec) != 'ok':
+            run.count('model-out-of-fuel')          # the model gave up on a deeply nested rejected input: nothing to compare
+        elif tag(m) != tag(dec) or (tag(m) == 'ok' and (canon(m[1], True) != canon(dec[1], True) or m[2] != dec[2])):
             run.disagree('decode', case, show(dec)[:300], show(m)[:300])
     settle_pending(run, pending, parsed, drv)
 
